@@ -62,6 +62,17 @@ def universe():
         def __bool__(self):
             return False
 
+    class F:            # a plain falsy component with truthy and falsy subclasses
+        def __bool__(self):
+            return False
+
+    class FB(F):
+        def __bool__(self):
+            return True
+
+    class FC(F):
+        pass
+
     class P1(desper.Processor):
         priority = 0
 
@@ -87,7 +98,7 @@ def universe():
 
         def process(self, dt):
             log.append(('proc', id(self), dt))
-    return dict(A=A, B=B, C=C, D=D, H=H, G=G, HB=HB, Z=Z, P1=P1, P2=P2, P3=P3, PH=PH), log
+    return dict(A=A, B=B, C=C, D=D, H=H, G=G, HB=HB, Z=Z, F=F, FB=FB, FC=FC, P1=P1, P2=P2, P3=P3, PH=PH), log
 
 
 class Model:
@@ -366,7 +377,7 @@ def run_history(history, budget_s=10):
 
 def compare(w, m, K, log):
     """Every query against the model (C01, C06), registration (C02), callbacks (C02)."""
-    types = [K[n] for n in ('A', 'B', 'C', 'D', 'H', 'G', 'HB', 'Z')]
+    types = [K[n] for n in ('A', 'B', 'C', 'D', 'H', 'G', 'HB', 'Z', 'F', 'FB', 'FC')]
     ents = sorted({e for (e, t) in m.att}, key=repr)
     for T in types:
         got = w.get(T)
@@ -456,6 +467,12 @@ def families(pid, tier):
         ops = [('create', ['D'], None), ('create', ['B', 'C'], None), ('add', 1, 'D#2'), ('add', 1, 'A'),
                ('remove', 1, 'A'), ('remove', 1, 'B'), ('remove', 1, 'D'), ('create', ['HB'], None),
                ('remove', 1, 'H'), ('addproc', 'P3', None), ('addproc', 'P1', None), ('rmproc', 'P1')]
+        # falsy components: the exact type is still preferred and exactly one object goes
+        fops = [('create', ['F', 'FB'], None), ('create', ['F', 'FC', 'FB'], None), ('create', ['FC'], None),
+                ('remove', 1, 'F'), ('remove', 1, 'FB'), ('remove', 1, 'FC'), ('add', 1, 'F#2'), ('add', 1, 'FB#2')]
+        for k in range(1, n + 1):
+            for combo in itertools.product(fops, repeat=k):
+                yield list(combo)
         for k in range(1, n + 2):
             for combo in itertools.product(ops, repeat=k):
                 yield list(combo)
